@@ -294,6 +294,7 @@ def main(tier):
     c17.rule_F(ck, units, cu['controls'])     # no binary search over unsorted rows (diagonal extraction etc.; shared with C17)
     c06.rule_chebyshev_bounds(ck, units, which=('sib',))
     c06.rule_power_norm(ck, units)
+    c06.rule_power_unit(ck, units)
     rule_first_flag(ck, units)
     import rmerge
     rmerge.rule_rmerge(ck, units, control=cu['controls'])
